@@ -220,7 +220,14 @@ class MQTTClient(MQTTTransport):
             raise RuntimeError("Client needs to connect before disconnecting.")
 
         self._incoming_task.cancel()
-        await self._incoming_task
+        try:
+            await self._incoming_task
+        except asyncio.CancelledError:
+            # The receive task was cancelled by us. Only propagate the
+            # cancellation if this task itself is being cancelled.
+            current_task = asyncio.current_task()
+            if current_task is not None and current_task.cancelling():
+                raise
         self._incoming_task = None
         with contextlib.suppress(MqttError):
             await self._client.__aexit__(None, None, None)
